@@ -74,7 +74,14 @@ def classify_cmd(path, keys, table):
             if cand in opts:
                 return vid(table, k, opts[cand])
         return 0
-    return 'W[' + render_vals(keys, table, get) + ']'
+    nf = ''
+    try:
+        import ast
+        if ast.literal_eval(cfg['properties'].get('native_file', '[]')):
+            nf = 'n'          # [properties] records a machine file
+    except Exception:
+        nf = '?'
+    return 'W[' + render_vals(keys, table, get) + ']' + nf
 
 
 def classify_pickle(path):
